@@ -175,7 +175,29 @@ def run(chk):
 
 
 def replay(chk, path):
+    """Sequential runs are re-executed on the current code (their operation sequence is in the trace) and the new
+    trace is validated; parallel summaries / histories are schedule dependent, so the recorded event is re-validated."""
     ok, out, wall = vlib.cargo_build("c04")
     if not ok:
         chk.tool_error("harness build failed", out)
-    vlib.validate_concat(chk, SPEC, "TraceHandles", "TraceHandles.cfg", path, "replay " + path)
+    progs, other = [], []
+    for _, lines in vlib.split_runs(path):
+        evs = [json.loads(l) for l in lines if l.strip()]
+        ops = [e["o"] for e in evs if e.get("ev") in ("op", "panic")]
+        if ops:
+            progs.append({"ops": ops})
+        elif any(e.get("ev") != "reset" for e in evs):
+            other += lines
+    if progs:
+        pp, tr = chk.path("replay.programs.ndjson"), chk.path("replay.ndjson")
+        with open(pp, "w") as f:
+            for b in progs:
+                f.write(json.dumps(b) + "\n")
+        rc, out, s = vlib.harness("c04", ["replay", "--in", pp, "--out", tr], env={"VERIF_SEED": str(chk.seed)})
+        if rc != 0 or not s:
+            chk.tool_error("c04 replay failed", out)
+        vlib.validate_concat(chk, SPEC, "TraceHandles", "TraceHandles.cfg", tr, "replay (re-executed) " + path)
+    if other:
+        tr = chk.path("replay.other.ndjson")
+        open(tr, "w").writelines(other)
+        vlib.validate_concat(chk, SPEC, "TraceHandles", "TraceHandles.cfg", tr, "replay (recorded summary) " + path)
